@@ -102,6 +102,13 @@ pub struct Scenario {
     pub no_color: bool,
     pub mode: Mode,
     pub sched: Sched,
+    /// layout of the pattern file: bit 0 = last line without LF, bit 1 = a blank line in the
+    /// middle, bit 2 = a blank line first (blank lines are not patterns)
+    #[serde(default)]
+    pub pat_file_layout: u8,
+    /// layout of the `-p` value: bit 0 = trailing newline, bit 1 = an empty segment in the middle
+    #[serde(default)]
+    pub p_layout: u8,
 }
 
 #[derive(Clone, Debug, Serialize, Deserialize)]
@@ -186,6 +193,25 @@ fn file_bytes(lines: &[String]) -> Vec<u8> {
     for l in lines {
         v.extend_from_slice(l.as_bytes());
         v.push(b'\n');
+    }
+    v
+}
+
+fn pattern_file_bytes(sc: &Scenario) -> Vec<u8> {
+    let pats = &sc.patterns[sc.p_count.min(sc.patterns.len())..];
+    let mut v = Vec::new();
+    if sc.pat_file_layout & 4 != 0 {
+        v.push(b'\n');
+    }
+    for (i, p) in pats.iter().enumerate() {
+        v.extend_from_slice(p.as_bytes());
+        let last = i + 1 == pats.len();
+        if !(last && sc.pat_file_layout & 1 != 0) {
+            v.push(b'\n');
+        }
+        if i == 0 && !last && sc.pat_file_layout & 2 != 0 {
+            v.push(b'\n');
+        }
     }
     v
 }
@@ -566,7 +592,21 @@ fn argv(sc: &Scenario) -> Vec<String> {
     let mut a = vec![];
     if sc.p_count > 0 {
         a.push("-p".to_string());
-        a.push(sc.patterns[..sc.p_count].join("\n"));
+        let ps = &sc.patterns[..sc.p_count];
+        let mut v = String::new();
+        for (i, p) in ps.iter().enumerate() {
+            v.push_str(p);
+            if i + 1 < ps.len() {
+                v.push('\n');
+                if i == 0 && sc.p_layout & 2 != 0 {
+                    v.push('\n');
+                }
+            }
+        }
+        if sc.p_layout & 1 != 0 {
+            v.push('\n');
+        }
+        a.push(v);
     }
     if sc.p_count < sc.patterns.len() {
         a.push("-f".to_string());
@@ -618,7 +658,7 @@ pub fn execute(sc: &Scenario, bins: &Bins, dir: &Path) -> RunResult {
     }
     w("stdin.txt", &file_bytes(&sc.stdin_lines));
     if sc.p_count < sc.patterns.len() {
-        w("pats.txt", &file_bytes(&sc.patterns[sc.p_count..].to_vec()));
+        w("pats.txt", &pattern_file_bytes(sc));
     }
     w("sched.txt", sc.sched.render().as_bytes());
     let bin = match sc.profile {
@@ -768,7 +808,7 @@ pub fn run(sc: &Scenario, bins: &Bins, dir: &Path, known_crlf: bool) -> Outcome 
             let content: Vec<u8> = if name == "stdin.txt" {
                 file_bytes(&sc.stdin_lines)
             } else if name == "pats.txt" {
-                file_bytes(&sc.patterns[sc.p_count.min(sc.patterns.len())..].to_vec())
+                pattern_file_bytes(sc)
             } else {
                 sc.files.iter().find(|(n, _)| *n == name).map(|(_, l)| file_bytes(l)).unwrap_or_default()
             };
@@ -897,6 +937,8 @@ const WORDS: &[&str] = &[
     "ab", "bc", "abc", "bcd", "cd", "a", "abcd", "he", "she", "his", "hers", "世界", "全世界", "界", "に", "é", "née", "ß",
     "😀", "a😀", "€uro", "x", "xx", "xyx", "foo", "foobar", "bar", "o b", " ", "::", "0:", ":", "-v", "--", "\t", "a.b", "*",
     "\u{80}", "\u{7ff}", "\u{800}", "\u{ffff}", "\u{10000}", "\u{10ffff}", "ana", "nan", "banana",
+    // shapes a "modernised" front end could mishandle: surrounding blanks, case, file-name look-alikes
+    " ab", "ab ", "AB", "Ab", "a.txt", "txt", "b.txt1:", "É", "ǅ", "ß ", "\t\t",
 ];
 
 const FILLER: &[&str] = &[
@@ -910,7 +952,18 @@ fn gen_line(rng: &mut Rng, pats: &[String], long: bool) -> String {
     if kind == 0 {
         return s; // empty line
     }
-    let target = if long { rng.range(8193, 9100) } else { *rng.pick(&[1usize, 3, 8, 8, 20, 20, 40, 90]) };
+    // long lines: just over the reader's 8 KiB buffer, or exactly at / around the sizes of the
+    // buffers involved (stdout's LineWriter: 1024, BufReader: 8192, pipe: 65536)
+    let target = if long {
+        if rng.chance(1, 2) {
+            rng.range(8193, 9100)
+        } else {
+            let b = *rng.pick(&[1024usize, 4096, 8192, 8192, 16384, 65536]);
+            b + rng.range(0, 4) - 2
+        }
+    } else {
+        *rng.pick(&[1usize, 3, 8, 8, 20, 20, 40, 90])
+    };
     while s.len() < target {
         let r = rng.below(10);
         if kind <= 2 {
@@ -928,6 +981,15 @@ fn gen_line(rng: &mut Rng, pats: &[String], long: bool) -> String {
             s.push_str(*rng.pick(FILLER));
         }
     }
+    if long {
+        // land exactly on the target length when a character boundary allows it
+        while s.len() > target {
+            s.pop();
+        }
+        while s.len() < target {
+            s.push('y');
+        }
+    }
     s
 }
 
@@ -941,13 +1003,18 @@ pub struct GenCfg {
 pub fn generate(seed: u64, cfg: &GenCfg) -> Scenario {
     let mut rng = Rng::new(seed);
     // patterns: non-empty, duplicate-free, no line breaks
-    let np = if cfg.small { rng.range(1, 4) } else { rng.range(1, 12) };
+    let many = !cfg.small && rng.chance(1, 25);
+    let np = if cfg.small { rng.range(1, 4) } else if many { rng.range(150, 400) } else { rng.range(1, 12) };
     let mut patterns: Vec<String> = vec![];
     for _ in 0..np * 4 {
         if patterns.len() >= np {
             break;
         }
-        let p = if rng.chance(3, 4) {
+        let p = if many {
+            // hundreds of patterns: the automaton of daacfind spans several blocks
+            let n = rng.range(2, 5);
+            (0..n).map(|_| *rng.pick(FILLER)).collect::<String>()
+        } else if rng.chance(3, 4) {
             rng.pick(WORDS).to_string()
         } else {
             let n = rng.range(1, 4);
@@ -969,7 +1036,7 @@ pub fn generate(seed: u64, cfg: &GenCfg) -> Scenario {
         let bad = patterns.iter().filter(|p| p.starts_with('-')).count();
         p_count = p_count.min(patterns.len() - bad);
     }
-    let nfiles = if cfg.small { *rng.pick(&[0usize, 1, 1, 2]) } else { *rng.pick(&[0usize, 0, 1, 1, 2, 3]) };
+    let nfiles = if cfg.small { *rng.pick(&[0usize, 1, 1, 2]) } else { *rng.pick(&[0usize, 0, 1, 1, 1, 2, 2, 3, 3, 6]) };
     let cr_run = rng.below(100) < cfg.cr_percent;
     let mut long_budget = if cfg.allow_long_lines && rng.chance(1, 12) { 1 } else { 0 };
     let mut gen_lines = |rng: &mut Rng| -> Vec<String> {
@@ -1014,6 +1081,8 @@ pub fn generate(seed: u64, cfg: &GenCfg) -> Scenario {
         no_color: rng.chance(1, 8),
         mode,
         sched: Sched::none(),
+        pat_file_layout: if rng.chance(1, 3) { rng.below(8) as u8 } else { 0 },
+        p_layout: if rng.chance(1, 4) { rng.below(4) as u8 } else { 0 },
     };
     sc.sched = gen_sched(&mut rng, mode);
     sc
@@ -1181,9 +1250,11 @@ pub fn minimise(sc: &Scenario, class: &str, bins: &Bins, dir: &Path, known_crlf:
             shrink(&mut cur, &|c: &mut Scenario| &mut c.stdin_lines[i]);
         }
         // flags
-        for k in 0..5 {
+        for k in 0..7 {
             let mut c = cur.clone();
             match k {
+                5 => c.pat_file_layout = 0,
+                6 => c.p_layout = 0,
                 0 => c.flag_n = false,
                 1 => c.flag_h = false,
                 2 => c.no_color = false,
